@@ -88,7 +88,8 @@ LeaveChecks(cs, stk, f, ev) ==
         ELSE <<>>)
     \* ---- C18: created here (no failing last child, or a different error) -> the path of this stack;
     \*           propagated from the failing last child -> unchanged
-    \o (IF "model" \notin DOMAIN cs /\ ~ev.ok /\ IsConstructError(ev.err) /\ cs.op = f.op /\ ev.err \notin {"StopFieldError", "CancelParsing"} /\
+    \* (also for a size probe made in the middle of a parse or a build: it is handed the path of the place it is made from)
+    \o (IF "model" \notin DOMAIN cs /\ ~ev.ok /\ IsConstructError(ev.err) /\ ev.err \notin {"StopFieldError", "CancelParsing"} /\
            ~(\E i \in 1..Len(stk) : stk[i].k = "Compiled") /\
            ~( ev.path = PathAt(stk, rootop) \/ (nk > 0 /\ ~lastk.ok /\ ev.path = lastk.path) )
         THEN <<"C18.path">> ELSE <<>>)
